@@ -1830,3 +1830,78 @@ var rR16v = RuleRef{Name: "R16v", Doc: "a read that spans storage and the unstab
 	c.Add("R16v", fnName(fn), "the unstable tail is appended only behind a complete storage part", fn.Pos(), len(bad) == 0 && n > 0, strings.Join(uniq(bad), "; "))
 	c.Count("R16v_tail_reads", n)
 }}
+
+// ---------- R20k: operand loops visit every operand ----------
+
+var rR20k = RuleRef{Name: "R20k", Doc: "every operand of a multi-key command is looked at: in the executors of SUNION/SINTER/SDIFF, their STORE forms, MGET, DEL and EXISTS (and the helpers they hand their key list to), a loop that looks keys up and type-tests what it finds is left only when the keys are exhausted or by returning -- never by `break`. The loop is where a wrong-typed operand is detected; leaving it early because the result is already known (a missing key makes an intersection empty) answers a command that has to be refused and, for a STORE form, overwrites the destination", Run: func(c *C) {
+	n := 0
+	seenFn := map[*ssa.Function]bool{}
+	for _, name := range []string{"sunion", "sinter", "sdiff", "sunionstore", "sinterstore", "sdiffstore", "mget", "del", "exists"} {
+		ex := c.Facts.Executors[name]
+		if ex == nil {
+			continue
+		}
+		for _, fn := range helperScope(ex, 2) {
+			if seenFn[fn] || fn.Pkg != ex.Pkg || (fn != ex && c.Facts.ExecNames[fn] != nil) {
+				continue
+			}
+			seenFn[fn] = true
+			loops := naturalLoops(fn)
+			var heads []*ssa.BasicBlock
+			for head := range loops {
+				heads = append(heads, head)
+			}
+			sort.Slice(heads, func(i, j int) bool { return heads[i].Index < heads[j].Index })
+			k := 0
+			for _, head := range heads {
+				body := loops[head]
+				looksUp, typeTests := false, false
+				for b := range body {
+					for _, in := range b.Instrs {
+						if ci, ok := in.(ssa.CallInstruction); ok {
+							if a := c.keyspaceAccess(ci); a != nil && a.Map == "db" && a.Method == "Get" {
+								looksUp = true
+							}
+						}
+						if ta, ok := in.(*ssa.TypeAssert); ok && ta.CommaOk {
+							typeTests = true
+						}
+					}
+				}
+				if !looksUp || !typeTests {
+					continue
+				}
+				n++
+				k++
+				// the regular way out: the successor of the header that is not part of the loop
+				var normal []*ssa.BasicBlock
+				for _, e := range head.Succs {
+					if !body[e] {
+						normal = append(normal, e)
+					}
+				}
+				var bad []string
+				for b := range body {
+					if b == head {
+						continue
+					}
+					for _, sc := range b.Succs {
+						if body[sc] {
+							continue
+						}
+						// an edge that leaves the loop from inside its body: a `return` never comes back to the code
+						// behind the loop, a `break` does
+						for _, e := range normal {
+							if sc == e || reaches(sc, e, nil) {
+								bad = append(bad, c.pos(b.Instrs[len(b.Instrs)-1].Pos())+": the loop is left early and the code behind it runs")
+							}
+						}
+					}
+				}
+				c.Add("R20k", fnName(fn), fmt.Sprintf("operand loop #%d is left only at the end of the keys or by returning", k), fn.Pos(), len(bad) == 0, strings.Join(uniq(bad), "; "))
+			}
+		}
+	}
+	c.Count("R20k_operand_loops", n)
+	c.Min("R20k_operand_loops", 3)
+}}
